@@ -51,7 +51,6 @@ import (
 	"path/filepath"
 	"runtime"
 	"runtime/debug"
-	"runtime/pprof"
 	"sort"
 	"strings"
 	"sync"
@@ -250,6 +249,11 @@ type world struct {
 	outcomeSeen  map[string]int
 	closingRuns  int
 	agentErrs    int
+	// observe() re-reads the hub directory tree / the receipt index only after something that can change them
+	// (a Receive call, a Reconcile call — it may forget stale receipts —, a storage event); in between the last
+	// reading is still exact because nothing but the harness-driven calls touches the hub
+	storDirty, idxDirty    bool
+	cExposed, cStaged, cIdx []string
 	keyPending   bool           // the last perturbation was a call fault: take the dedup key at the end of that run
 	key          string         // chain.go: full state right after the last perturbation took effect
 	ckSeen       map[string]int // chain.go: spoke checkpoint vs hub staged length, measured at every PutFile
@@ -283,7 +287,7 @@ CREATE TRIGGER IF NOT EXISTS zz_verif_del AFTER DELETE ON sync_ledger BEGIN
 
 func newWorld(dir string, h history) *world {
 	w := &world{dir: dir, h: h, plan: map[addr][]pert{}, occ: map[string]int{}, hubCompacted: map[string]bool{},
-		violSeen: map[string]bool{}, transSeen: map[string]int{}, outcomeSeen: map[string]int{}, ckSeen: map[string]int{}}
+		violSeen: map[string]bool{}, transSeen: map[string]int{}, outcomeSeen: map[string]int{}, ckSeen: map[string]int{}, storDirty: true, idxDirty: true}
 	for _, p := range h.Perts {
 		a := addr{p.Run, p.At, p.Occ}
 		w.plan[a] = append(w.plan[a], p)
@@ -298,11 +302,12 @@ func newWorld(dir string, h history) *world {
 	for _, p := range universe(h) {
 		must(w.spokeBE.Write(ctx, p, contentOf[p]), "write spoke file")
 	}
+	// both SQLite files start as copies of templates that the real constructors (NewLedger + the harness's
+	// transition-log triggers, NewHubIndex) produced once at start-up: same bytes as running the DDL here, at a
+	// fraction of the cost; the constructors still run on every handle the code under test uses
+	must(os.WriteFile(filepath.Join(dir, "ledger.db"), tplLedger, 0o644), "ledger template")
+	must(os.WriteFile(filepath.Join(dir, "hub.db"), tplHub, 0o644), "hub index template")
 	w.obsDB = openSQLite(filepath.Join(dir, "ledger.db"))
-	w.toolLed, err = edgesync.NewLedger(w.obsDB, zerolog.Nop())
-	must(err, "ledger schema")
-	_, err = w.obsDB.Exec(triggerSQL)
-	must(err, "install transition-log triggers")
 	w.hubDB = openSQLite(filepath.Join(dir, "hub.db"))
 	w.index, err = edgesync.NewHubIndex(w.hubDB, zerolog.Nop())
 	must(err, "hub index")
@@ -310,9 +315,35 @@ func newWorld(dir string, h history) *world {
 	must(err, "receiver")
 	w.recon, err = edgesync.NewReconciler(edgesync.ReconcilerConfig{Index: w.index, Backend: w.hubBE})
 	must(err, "reconciler")
-	w.gate = edgesync.NewCompactionEligibility(w.toolLed, hubID, gateEpoch, zerolog.Nop())
-	w.observer = edgesync.NewCompactedOutputObserver(w.toolLed, hubID, gateEpoch, zerolog.Nop())
+	if h.Cfg != cfgChain { // the chain universe has no spoke compaction
+		w.toolLed, err = edgesync.NewLedger(w.obsDB, zerolog.Nop())
+		must(err, "tool ledger")
+		w.gate = edgesync.NewCompactionEligibility(w.toolLed, hubID, gateEpoch, zerolog.Nop())
+		w.observer = edgesync.NewCompactedOutputObserver(w.toolLed, hubID, gateEpoch, zerolog.Nop())
+	}
 	return w
+}
+
+var tplLedger, tplHub []byte
+
+func buildTemplates() {
+	dir := filepath.Join(scratch, "tpl")
+	must(os.MkdirAll(dir, 0o755), "mkdir templates")
+	db := openSQLite(filepath.Join(dir, "ledger.db"))
+	_, err := edgesync.NewLedger(db, zerolog.Nop())
+	must(err, "ledger schema")
+	_, err = db.Exec(triggerSQL)
+	must(err, "install transition-log triggers")
+	must(db.Close(), "close ledger template")
+	hub := openSQLite(filepath.Join(dir, "hub.db"))
+	_, err = edgesync.NewHubIndex(hub, zerolog.Nop())
+	must(err, "hub index schema")
+	must(hub.Close(), "close hub template")
+	tplLedger, err = os.ReadFile(filepath.Join(dir, "ledger.db"))
+	must(err, "read ledger template")
+	tplHub, err = os.ReadFile(filepath.Join(dir, "hub.db"))
+	must(err, "read hub template")
+	os.RemoveAll(dir)
 }
 
 func (w *world) close() {
@@ -403,7 +434,47 @@ func (w *world) observe() {
 		}
 	}
 
-	// ---- O1 + O2: hub storage
+	// ---- O1 + O2: hub storage, O1: hub receipt index (re-read only after something that can change them)
+	if w.storDirty {
+		w.readHubStorage()
+		w.storDirty = false
+	}
+	if w.idxDirty {
+		w.readHubIndex()
+		w.idxDirty = false
+	}
+	exposed, staged, idx := w.cExposed, w.cStaged, w.cIdx
+
+	// ---- canonical state (for the distinct-state count)
+	var led []string
+	lrows, err := w.obsDB.Query(`SELECT path, state, bytes_sent, attempts FROM sync_ledger ORDER BY path`)
+	must(err, "read ledger")
+	for lrows.Next() {
+		var p, st string
+		var bs, at int64
+		must(lrows.Scan(&p, &st, &bs, &at), "scan ledger")
+		led = append(led, fmt.Sprintf("%s:%s:%d:%d", nameOf(p), st, bs, at))
+	}
+	must(lrows.Err(), "ledger rows")
+	lrows.Close()
+	var sp []string
+	for _, p := range []string{pF1, pF2, pC} {
+		if exists(w.spokeFile(p)) {
+			sp = append(sp, nameOf(p))
+		}
+	}
+	var hc []string
+	for _, p := range []string{pF1, pF2} {
+		if w.hubCompacted[p] {
+			hc = append(hc, nameOf(p))
+		}
+	}
+	w.canons = append(w.canons, fmt.Sprintf("L[%s] S[%s] H[%s] G[%s] I[%s] C[%s]", strings.Join(led, ","), strings.Join(sp, ","),
+		strings.Join(exposed, ","), strings.Join(staged, ","), strings.Join(idx, ","), strings.Join(hc, ",")))
+}
+
+// readHubStorage walks the hub directory: O1 (exposed bytes equal the spoke's) and O2 (no second copy).
+func (w *world) readHubStorage() {
 	hubRoot := filepath.Join(w.dir, "hub")
 	var exposed, staged []string
 	filepath.WalkDir(hubRoot, func(p string, d fs.DirEntry, err error) error {
@@ -439,8 +510,11 @@ func (w *world) observe() {
 	})
 	sort.Strings(exposed)
 	sort.Strings(staged)
+	w.cExposed, w.cStaged = exposed, staged
+}
 
-	// ---- O1: hub receipt index
+// readHubIndex reads the receipt index: O1 (every receipt describes the spoke's file).
+func (w *world) readHubIndex() {
 	var idx []string
 	irows, err := w.hubDB.Query(`SELECT spoke_id, source_path, hub_path, sha256, size_bytes, compacted_at IS NOT NULL FROM sync_received ORDER BY spoke_id, source_path`)
 	must(err, "read hub index")
@@ -461,33 +535,7 @@ func (w *world) observe() {
 	}
 	must(irows.Err(), "hub index rows")
 	irows.Close()
-
-	// ---- canonical state (for the distinct-state count)
-	var led []string
-	lrows, err := w.obsDB.Query(`SELECT path, state, bytes_sent, attempts FROM sync_ledger ORDER BY path`)
-	must(err, "read ledger")
-	for lrows.Next() {
-		var p, st string
-		var bs, at int64
-		must(lrows.Scan(&p, &st, &bs, &at), "scan ledger")
-		led = append(led, fmt.Sprintf("%s:%s:%d:%d", nameOf(p), st, bs, at))
-	}
-	must(lrows.Err(), "ledger rows")
-	lrows.Close()
-	var sp []string
-	for _, p := range []string{pF1, pF2, pC} {
-		if exists(w.spokeFile(p)) {
-			sp = append(sp, nameOf(p))
-		}
-	}
-	var hc []string
-	for _, p := range []string{pF1, pF2} {
-		if w.hubCompacted[p] {
-			hc = append(hc, nameOf(p))
-		}
-	}
-	w.canons = append(w.canons, fmt.Sprintf("L[%s] S[%s] H[%s] G[%s] I[%s] C[%s]", strings.Join(led, ","), strings.Join(sp, ","),
-		strings.Join(exposed, ","), strings.Join(staged, ","), strings.Join(idx, ","), strings.Join(hc, ",")))
+	w.cIdx = idx
 }
 
 func (w *world) ledgerStates() map[string]string {
@@ -546,6 +594,7 @@ func (w *world) applicableEvents(at string) []string {
 
 func (w *world) applyEvent(e string) {
 	ctx := context.Background()
+	w.storDirty, w.idxDirty = true, true
 	switch e {
 	case evSpokeVanish1:
 		must(w.spokeBE.Delete(ctx, pF1), e)
@@ -665,6 +714,7 @@ func (t *faultTransport) Reconcile(ctx context.Context, hub string, pending []*e
 		return nil, t.crash()
 	}
 	res, err := w.recon.Reconcile(context.Background(), spokeID, entries)
+	w.idxDirty = true // Reconcile forgets receipts whose file is gone; it writes nothing to storage
 	if err != nil {
 		w.trace = append(w.trace, call+" -> hub error "+err.Error())
 	} else {
@@ -757,6 +807,7 @@ func (t *faultTransport) PutFile(ctx context.Context, hub string, entry *edgesyn
 	}
 	hadCopy := exists(w.hubFinal(entry.Path)) || w.hubCompacted[entry.Path]
 	res, err := w.recv.Receive(context.Background(), spokeID, entry.Path, entry.SHA256, entry.SizeBytes, offset, bytes.NewReader(send))
+	w.storDirty, w.idxDirty = true, true
 	if err != nil {
 		w.trace = append(w.trace, call+" -> hub error "+err.Error())
 		w.outcomeSeen["hub-error"]++
@@ -1041,6 +1092,7 @@ func main() {
 	sig := make(chan os.Signal, 1)
 	signal.Notify(sig, syscall.SIGINT, syscall.SIGTERM)
 	go func() { <-sig; cleanup(); os.Exit(2) }()
+	buildTemplates()
 
 	if run.Replay != "" {
 		replay(run.Replay)
@@ -1049,11 +1101,6 @@ func main() {
 	}
 
 	debug.SetGCPercent(400)
-	if pf := os.Getenv("VERIF_C27_PROF"); pf != "" {
-		f, _ := os.Create(pf)
-		pprof.StartCPUProfile(f)
-		defer pprof.StopCPUProfile()
-	}
 	// bounds per ledger configuration (max_attempts 0 = the default, 5). The max_attempts=2 configuration
 	// exists to reach the retry cap (in_flight -> failed through MarkFailed) with two faults on one file; it is
 	// explored without storage events.
@@ -1462,7 +1509,6 @@ func main() {
 		histories, perCfg, len(states), transitions, len(finals), len(fails), run.ViolationClasses(), exhaustive, maxClosing)
 	fmt.Printf("C27: chain universe: levels=%d states-expanded=%d not-extended(state seen)=%d checkpoint-vs-staged=%v\n", chainLevels, chainKeys, chainPruned, ckSeen)
 	cleanup()
-	pprof.StopCPUProfile()
 	run.Finish()
 }
 
